@@ -533,6 +533,12 @@ func (c *Chain) drawDiff(t *rapid.T, pre *ref.State, num uint64, version string,
 			continue
 		}
 		nw := rapid.IntRange(1, 4).Draw(t, "nwrites")
+		if !sys && rapid.IntRange(0, 11).Draw(t, "emptySlotMap") == 0 {
+			// a contract listed in storage_diffs without any slot (the feeder format allows it, sn2core keeps the entry,
+			// and the state-diff hash counts it)
+			nw = 0
+			tags["empty-slot-map"] = true
+		}
 		var cur map[felt.Felt]felt.Felt
 		if ct, ok := pre.Contracts[a]; ok {
 			cur = ct.Storage
